@@ -178,9 +178,5 @@ def body(check):
         nvars += r or 0
     check.floor("registered variables", nvars, 14 + 14 + 15 + 3 + 1)
     dispatch(check)
-    try:
-        from ..units import check_variable_units
-    except ImportError:
-        check_variable_units = None
-    if check_variable_units is not None:
-        check_variable_units(check, "UNIT-HOMOG")
+    from ..units import check_variable_units
+    check_variable_units(check, "UNIT-HOMOG")
